@@ -106,3 +106,57 @@ Definition lcase_nontrivial (k : lcase) : bool :=
   negb (length e2 + length e3 =? 0)
   || match fst (unwrap_thread w e1 e2 e3) with RSlice _ => true | REmpty => false end.
 Definition lcount_nontrivial (cases : list lcase) : nat := count_true (map lcase_nontrivial cases).
+
+(* ====================================================================== searching other threads *)
+(* stackscope/_glue.py : unwrap_stackslice, for a StackSlice that names only its OUTER frame (a
+   generator / coroutine that is running, extract_since(frame)):
+     frames = try_from(get_true_caller())                      -- the caller's own stack
+     if not frames:
+         for ident, inner in sys._current_frames().items():    -- every OTHER thread, in whatever order
+             if ident != threading.get_ident():
+                 frames = try_from(inner);  if frames: break
+     if not frames:  yield outer; raise RuntimeError("Couldn't find where the above frame is running ...")
+   A thread's stack is the list of its frames, innermost first (the f_back chain). *)
+Definition tstack := list nat.
+
+(* try_from: walk outward from the innermost frame until `outer` is met; the frames from `outer`
+   inward, outermost first; [] if `outer` is not on this stack *)
+Fixpoint try_from_acc (outer : nat) (st : tstack) (acc : list nat) : list nat :=
+  match st with
+  | [] => []
+  | f :: r => if f =? outer then f :: acc else try_from_acc outer r (f :: acc)
+  end.
+Definition try_from (outer : nat) (st : tstack) : list nat := try_from_acc outer st [].
+
+Fixpoint search_others (me outer : nat) (ths : list (nat * tstack)) : list nat :=
+  match ths with
+  | [] => []
+  | (i, st) :: r =>
+      if i =? me then search_others me outer r
+      else match try_from outer st with
+           | [] => search_others me outer r
+           | fs => fs
+           end
+  end.
+
+(* result: the frames, and whether the RuntimeError was reported *)
+Definition unwrap_outer (me outer : nat) (own : tstack) (ths : list (nat * tstack)) : list nat * bool :=
+  match try_from outer own with
+  | [] => match search_others me outer ths with
+          | [] => ([outer], true)
+          | fs => (fs, false)
+          end
+  | fs => (fs, false)
+  end.
+
+Definition ocase := (nat * nat * tstack * list (nat * tstack) * (list nat * bool))%type.
+Definition ocase_ok (k : ocase) : bool :=
+  let '(me, outer, own, ths, (fs, err)) := k in
+  let '(mfs, merr) := unwrap_outer me outer own ths in
+  list_eqb Nat.eqb mfs fs && Bool.eqb merr err.
+Definition omismatches (cases : list ocase) : list nat := false_indices 0 (map ocase_ok cases).
+(* non-trivial: the frame was found on another thread's stack *)
+Definition ocase_nontrivial (k : ocase) : bool :=
+  let '(me, outer, own, ths, _) := k in
+  match try_from outer own, search_others me outer ths with [], _ :: _ => true | _, _ => false end.
+Definition ocount_nontrivial (cases : list ocase) : nat := count_true (map ocase_nontrivial cases).
